@@ -83,7 +83,7 @@ def run(ctx):
     for b in behs:
         case = fd.run_history(work, b["cfg"], b["ops"], salt=ctx.rng.randrange(1 << 20),
                               level=ctx.rng.choice([0, 1, 6, 9, 9]),
-                              via=ctx.rng.choice(["ctor", "path", "path", "file", "precomputed", "precomputed-file"]))
+                              via=ctx.rng.choice(["ctor", "path", "path", "file", "precomputed", "precomputed-file", "argparse", "argparse"]))
         case["mixed"] = fd.mixed_mime(b["ops"])
         cases.append(case)
     # C->S: longer random histories
@@ -93,7 +93,7 @@ def run(ctx):
         ops = random_ops(ctx.rng, ctx.rng.randint(6, ctx.pick(14, 40)), per_name)
         case = fd.run_history(work, cfg, ops, salt=ctx.rng.randrange(1 << 20),
                               level=ctx.rng.choice([0, 1, 6, 9, 9]),
-                              via=ctx.rng.choice(["ctor", "path", "path", "file", "precomputed", "precomputed-file"]))
+                              via=ctx.rng.choice(["ctor", "path", "path", "file", "precomputed", "precomputed-file", "argparse", "argparse"]))
         case["mixed"] = fd.mixed_mime(ops)
         cases.append(case)
     # confinement probes
